@@ -852,11 +852,11 @@ func c07RepeatSupport(c *Ctx) {
 		}
 		n++
 		held := false
-		for cond, pol := range heldConds(call) {
+		for _, h := range heldCondVals(call) {
 			// `_, isFinalized := finalizedRoots[rootHash]` (the only map keyed by TypedHash
-			// with empty-struct values made in Finalize) … case false
-			if strings.Contains(cond, "make(map[storage/mkvs/db/api.TypedHash]struct{})[") &&
-				(strings.HasSuffix(cond, "#1 == false)") && pol || strings.HasSuffix(cond, "#1 == true)") && !pol) {
+			// with empty-struct values made in Finalize) … not finalized, however the test is spelled
+			nc := normCond(h.Cond, h.Pol)
+			if strings.HasPrefix(nc, "!make(map[storage/mkvs/db/api.TypedHash]struct{})[") && strings.HasSuffix(nc, "#1") {
 				held = true
 			}
 		}
